@@ -101,11 +101,13 @@ def run(prog, rep, tier):
     clauses2 = [
         ("n-wrong-type", "TypeError", [[(cmp_("is", N, ("const", None)), False), (cmp_("in", tn, ("list", (INT, LIST))), False)],
                                         [(cmp_("is", N, ("const", None)), False), (ext("isinstance", N, ("tuple", (INT, LIST))), False)]]),
-        ("n-not-positive", "ValueError", [[(cmp_("==", tn, INT), True), (cmp_("<=", N, ("const", 0)), True)], [(ext("isinstance", N, INT), True), (cmp_("<=", N, ("const", 0)), True)]]),
+        # (for an int, `n < 1` is `n <= 0`)
+        ("n-not-positive", "ValueError", [[(cmp_("==", tn, INT), True), (cmp_("<=", N, ("const", 0)), True)], [(ext("isinstance", N, INT), True), (cmp_("<=", N, ("const", 0)), True)],
+                                          [(cmp_("==", tn, INT), True), (cmp_("<", N, ("const", 1)), True)], [(ext("isinstance", N, INT), True), (cmp_("<", N, ("const", 1)), True)]]),
         ("n-list-wrong-length", "ValueError", [[(cmp_("==", tn, LIST), True), (cmp_("!=", ext("len", N), ("self", "e")), True)],
                                                [(ext("isinstance", N, LIST), True), (cmp_("!=", ext("len", N), ("self", "e")), True)]]),
         ("n-list-element-wrong-type", "TypeError", [[(cmp_("!=", tne, INT), True)], [(ext("isinstance", ne, INT), False)]]),
-        ("n-list-element-not-positive", "ValueError", [[(cmp_("<=", ne, ("const", 0)), True)]]),
+        ("n-list-element-not-positive", "ValueError", [[(cmp_("<=", ne, ("const", 0)), True)], [(cmp_("<", ne, ("const", 1)), True)]]),
     ]
     contract(rep, S2, f2, clauses2)
     # every entry of a list n is validated: the loop over the entries is left only by an exception (a `return` / `break` inside
@@ -306,7 +308,7 @@ def run(prog, rep, tier):
             pop_ok = b.get("a") in n_rows or b.get("a") in tuple(ext("range", x) for x in n_rows)
             i6 = st.idx[1][0] if st.idx[0] == "tuple" and st.idx[1] else None
             p_ = b.get("p")
-            p_ok = p_ is not None and p_[0] == "sub" and p_[2] == ("tuple", (i6, FULL)) and i6 is not None and i6[0] == "elem"
+            p_ok = p_ is not None and p_[0] == "sub" and p_[2] in (("tuple", (i6, FULL)), i6) and i6 is not None and i6[0] == "elem"       # weights[i, :] / weights[i]
             one = is_const(b.get("size", ("const", None)), 1) or b.get("size") is None
             okd = row_ok and pop_ok and p_ok and one
             if not okd and Yt is not None and one and p_ is not None and p_[0] == "sub" and p_[2][0] == "tuple" and len(p_[2][1]) == 2 and p_[2][1][0] == i6:
